@@ -174,10 +174,14 @@ func (s *Spec) TestSource() string {
 	for _, id := range sortedIDs(s.Leaves) {
 		fmt.Fprintf(&b, "\t\t\"SLeaf%d\": %q,\n", id, s.Leaves[id].Fn)
 	}
-	b.WriteString("\t},\n\tMethodSrc: map[string][][2]string{\n")
+	b.WriteString("\t},\n\tMethodSrc: map[string][][3]string{\n")
 	for _, id := range sortedIDs(s.Structs) {
 		if s.Structs[id].MethodSrc {
-			fmt.Fprintf(&b, "\t\t\"S%d\": {{\"S%d.Calc%d\", \"Calc%d\"}},\n", id, id, id, id)
+			fmt.Fprintf(&b, "\t\t\"S%d\": {{\"S%d.Calc%d\", \"Calc%d\", \"id\"}", id, id, id, id)
+			if s.Structs[id].MethodSrcFunc {
+				fmt.Fprintf(&b, ", {\"MapCalc%d\", \"Calc%d\", \"calc\"}", id, id)
+			}
+			b.WriteString("},\n")
 		}
 	}
 	b.WriteString("\t},\n\tEnums: map[string]int{\n")
